@@ -454,7 +454,10 @@ func (s *state) formatRecursive(err error, isOutermost, withDetail, withDepth bo
 		// various interfaces first.
 		printDone := false
 		for _, fn := range specialCases {
-			if handled, desiredShortening := fn(err, (*safePrinter)(s), cause == nil /* leaf */); handled {
+			// An error with multi-cause branches is not a leaf: its own
+			// text may differ from that of its branches, so it must not
+			// be printed as safe on the strength of a branch.
+			if handled, desiredShortening := fn(err, (*safePrinter)(s), cause == nil && len(causes) == 0 /* leaf */); handled {
 				printDone = true
 				bufIsRedactable = true
 				if desiredShortening == nil {
